@@ -35,8 +35,8 @@ func (c19) Components() map[string]string {
 	return map[string]string{
 		"registry.repositoryClient (PushSignature, ListSignatures, FetchSignatureBlob, signatureReferrers, getSignatureBlobDesc)": "real",
 		"oras oci.Store / memory.Store": "real dependency on tmpfs / in memory (not yield-instrumented)",
-		"wrapper":                        "order-fixing (sorted then rotated), fault-injecting, call-logging oras.GraphTarget",
-		"reference model":                "map subject -> multiset (media type, bytes, annotations)",
+		"wrapper":                       "order-fixing (sorted then rotated), fault-injecting, call-logging oras.GraphTarget",
+		"reference model":               "map subject -> multiset (media type, bytes, annotations)",
 	}
 }
 
